@@ -8,6 +8,7 @@ real table (all reads, all iteration modes, check()) is compared with the model.
 import copy
 import itertools
 
+import pickle
 import numpy as np
 
 from pyPRISM.core.PairTable import PairTable
@@ -242,8 +243,11 @@ def compare_check(ctx, T, model, types, where):
         ctx.violation('pt:check-wrong', '%s: check() %s but the table %s an unset pair' % (where, 'raised' if raised else 'did not raise', 'has' if unset else 'has no'))
 
 
+TABLE_NAMES = ['monitored', 'potential', 'chi_{AB}', 'u_{ij}(r)', '{}', '100%', 'omega %s', 'a{0}b']
+
+
 def run_pairtable(ctx, types, steps):
-    T = PairTable(list(types), 'monitored')
+    T = PairTable(list(types), TABLE_NAMES[(len(steps) + len(types)) % len(TABLE_NAMES)])         # any string is a legal name
     model = {}           # unordered pair -> [uid, payload]
     callers = []
     reassign = False
@@ -303,6 +307,10 @@ def run_pairtable(ctx, types, steps):
                         if h is not None:
                             payload_of(h).append('poison')
         elif op == 'mutate_handle':
+            if st[3] % 4 == 0:
+                # the history continues on a copy of the table (a forked System): the copy is a PairTable like any other
+                T = copy.deepcopy(T) if st[3] % 8 == 0 else pickle.loads(pickle.dumps(T))
+                ctx.hook('pt.history_continues_on_a_copy')
             a, b = types[st[1]], types[st[2]]
             h = T[a, b]
             if h is not None:
@@ -393,7 +401,7 @@ class TupVal(tuple):
 
 
 def run_valuetable(ctx, types, steps):
-    T = ValueTable(list(types), 'monitored')
+    T = ValueTable(list(types), TABLE_NAMES[(len(steps) + 3 * len(types)) % len(TABLE_NAMES)])
     model = {}
     for k, st in enumerate(steps):
         where = 'step %d %s' % (k, st)
